@@ -268,13 +268,8 @@ def _is_backward_function(model, func, call):
 def _children(op, func, expr):
     fnode = func.node
     cfg = op.cfg
-    if isinstance(expr, ast.Tuple):
-        out = []
-        for e in expr.elts:
-            if not isinstance(e, ast.Name):
-                raise Incomplete('children element is not a name: %s' % norm(e))
-            out.append(Child(e.id))
-        return out
+    if isinstance(expr, ast.Tuple) and all(isinstance(e, ast.Name) for e in expr.elts):
+        return [Child(e.id) for e in expr.elts]
     if isinstance(expr, ast.Call) and dotted(expr.func) in ('tuple', 'list') and len(expr.args) == 1 and isinstance(expr.args[0], ast.Name):
         return [Child(expr.args[0].id, is_list=True)]
     if isinstance(expr, ast.IfExp) and all(isinstance(b, ast.Tuple) and all(isinstance(e, ast.Name) for e in b.elts) for b in (expr.body, expr.orelse)):
